@@ -36,7 +36,7 @@ type c01Op struct {
 func c01() {
 	R := vr.New("C01", "history", "seeded operation histories (add/update/set-admin/remove/failed ops/default switch/set removal) over 3-6 users on stores with 4 parameter sets; after every step the whole observable state is compared with a sequential reference model and near-miss passwords are probed. Non-trivial: a history with >=2 users, >=1 successful update and >=1 failed operation; distinct by operation sequence hash")
 	defer R.Write()
-	nh := vr.Pick(150, 3000)
+	nh := vr.Pick(150, 1200)
 	nops := vr.Pick(25, 40)
 	root := filepath.Join(workDir(), "c01")
 	for h := 0; h < nh; h++ {
